@@ -116,6 +116,12 @@ class TimersCtx(BaseCtx):
         if self.phase == "opensent":
             return ["send", 0, self.cfg["peer_open"], []]
         if self.phase == "openconfirm":
+            if self.cfg.get("second_open") and not getattr(self, "second_open_sent", False):
+                # a further valid OPEN (other hold time) before the KEEPALIVE: if the agent ignores it,
+                # the contract negotiated by the first one stays in force
+                self.second_open_sent = True
+                self.next_arrival = self.world.now() + rng.pick([0.0, 0.5])
+                return ["send", 0, self.cfg["second_open"], []]
             return ["send", 0, rp.encode_keepalive().hex(), []]
         if rng.chance(0.3):
             return ["send", 0, base.gen_update(rng, self.cfg, False).hex(), []]
@@ -143,6 +149,7 @@ class TimersCtx(BaseCtx):
             return
         now = w.now()
         H = self.H
+        phase_before = self.phase
         cell_h = "H=%s" % ("0" if H == 0 else "pos")
         # --- time passed: overdue checks evaluated at the new instant
         if now > t_before + EPS:
@@ -165,6 +172,8 @@ class TimersCtx(BaseCtx):
                 if ty in (rp.KEEPALIVE, rp.UPDATE):
                     self.deadline = now + H
                     self.stats["arrival_restarts_hold"] += 1
+        if phase_before == "openconfirm" and rp.OPEN in rx_kinds and not self.done:
+            self.stats["second_open_in_openconfirm"] += 1
         if self.phase == "openconfirm" and rp.KEEPALIVE in rx_kinds:
             if w.state() != "ESTABLISHED":
                 raise Violation("C03", "session", "%s/keepalive-in-openconfirm-not-established" % cell_h,
@@ -273,6 +282,10 @@ class TimersCtx(BaseCtx):
                 self.nontrivial = True
                 self.stats["expiry_negotiated_hold"] += 1
                 return
+            if code in (5, 6) and rp.OPEN in rx_kinds and self.phase == "openconfirm":
+                self.done = True      # the agent refuses a second OPEN (tolerated, see C01): nothing to time
+                self.stats["second_open_refused"] += 1
+                return
             if code == 4:
                 raise Violation("C03", "hold", "%s/%s/expiry-at-wrong-time" % (cell_h, self.phase),
                                 "Hold Timer Expired sent at t=%.3f; negotiated H=%s, last arrival restarts put the "
@@ -280,6 +293,8 @@ class TimersCtx(BaseCtx):
             raise Violation("C03", "session", "%s/%s/unexpected-%s" % (cell_h, self.phase, name),
                             "%s sent at t=%.3f although the peer only sent KEEPALIVE/UPDATE" % (name, now))
         if t[0] == "lose":
+            if self.done:
+                return
             if self.expired:
                 self.phase = "ended"
                 self.stats["closed_after_expiry"] += 1
@@ -307,7 +322,7 @@ class TimersProfile(BaseProfile):
             "KEEPALIVE/UPDATE gaps from {H-e,H,H+e,H/3,0,H/2,3H,...} in OpenConfirm and Established (or total silence in "
             "OpenSent), all timers fired at their virtual instants with explicit tie order; non-trivial = reached "
             "Established or observed an expiry; distinct = distinct (phase, op, outputs, arrivals) sequence")
-    probes = ["two_session_runs", "gen:tie_timer_vs_arrival", "same_instant_timers", "expiry_negotiated_hold", "expiry_large_hold",
+    probes = ["second_open_in_openconfirm", "two_session_runs", "gen:tie_timer_vs_arrival", "same_instant_timers", "expiry_negotiated_hold", "expiry_large_hold",
               "periodic_keepalive", "arrival_restarts_hold", "closed_after_expiry"]
 
     def gen_config(self, rng, idx, tier):
@@ -328,6 +343,8 @@ class TimersProfile(BaseProfile):
         cfg["n_arrivals"] = rng.pick([0, 1, 2, 4, 8, 16])
         cfg["max_ops"] = 400
         cfg["peer_open"] = base.gen_open(rng, cfg, "valid", hold=cfg["peer_hold"]).hex()
+        if rng.chance(0.12):
+            cfg["second_open"] = base.gen_open(rng, cfg, "valid", hold=rng.pick([0, 3, 9, 30, 90, 180, 600])).hex()
         return cfg
 
     def new_ctx(self, cfg, tier):
